@@ -16,11 +16,16 @@ harness: `<start> ::= <n> | <n> <n>; <n> ::= r"[0-9]+"` on "12" has one parse at
 boundary inside a digit run offers a split that the whole input never offers.  What is proved is the statement
 for oracles that are `CutStable` (literals, bytes, bits, and regexes whose match cannot grow: `ab*c`, `[0-9]{3}`…).
 
+Naming: the theorems that carry the hypotheses `CutStable R` / `eng.Lawful` prove the property for a sub-class
+only and are therefore named `…_partial` (missing: regexes whose match can end in more than one place — for those
+the statement is false, §5 — and the laws of the real predict/complete closure, which are assumed).
+
 `can_continue`: the full statement is `canContinue s = false ↔ no extension of the consumed input is in the
 language`; proved is the `→` half against the model's own recogniser (`C13_canContinue_sound_partial`); linking
 it to `Lang` needs recogniser completeness of an Earley model and stays open.
 -/
 import Proofs.Incremental
+import Proofs.IncrementalEx
 namespace FV
 namespace Incr
 
@@ -31,7 +36,7 @@ variable {ι : Type}
 /-- Feeding `a` and then `b` reaches a state equivalent to feeding `a ++ b`: the same ordinary states in
     every column and the same scheduled states in the last column — in particular the same complete items
     and the same resumable (incomplete-terminal) items. -/
-theorem C13_feed_append (eng : Engine ι) (R : ROracle) (md : Mode) (hL : eng.Lawful) (hR : CutStable R)
+theorem C13_feed_append_partial (eng : Engine ι) (R : ROracle) (md : Mode) (hL : eng.Lawful) (hR : CutStable R)
     (s : PState ι) (hs : s.Ready eng) (a b : Units) (hal : (feed eng R md s (a ++ b)).Aligned eng) :
     (feed eng R md (feed eng R md s a) b).Equiv (feed eng R md s (a ++ b)) ∧
     SetEq (completeParses eng (feed eng R md (feed eng R md s a) b))
@@ -42,7 +47,7 @@ theorem C13_feed_append (eng : Engine ι) (R : ROracle) (md : Mode) (hL : eng.La
 
 /-- For every list of pieces the complete parses (and the resumable states) after the last piece are those
     of the concatenated input fed at once. -/
-theorem C13_chunking_irrelevant (eng : Engine ι) (R : ROracle) (md : Mode) (hL : eng.Lawful)
+theorem C13_chunking_irrelevant_partial (eng : Engine ι) (R : ROracle) (md : Mode) (hL : eng.Lawful)
     (hR : CutStable R) (s : PState ι) (hs : s.Ready eng) (pieces : List Units) (w : Units)
     (hw : pieces.flatten = w) (hal : (feed eng R md s w).Aligned eng) :
     SetEq (completeParses eng (pieces.foldl (feed eng R md) s)) (completeParses eng (feed eng R md s w)) ∧
@@ -79,13 +84,13 @@ theorem C13_canContinue_sound_partial (eng : Engine ι) (R : ROracle) (md : Mode
   canContinue_false_no_parse eng R md hC s hset hcc v hv
 
 /-- … and for every way of cutting the continuation -/
-theorem C13_canContinue_sound_pieces (eng : Engine ι) (R : ROracle) (md : Mode) (hL : eng.Lawful)
+theorem C13_canContinue_sound_pieces_partial (eng : Engine ι) (R : ROracle) (md : Mode) (hL : eng.Lawful)
     (hC : eng.LawfulCC) (hR : CutStable R) (s : PState ι) (hs : s.Ready eng)
     (hcc : canContinue eng s = false) (pieces : List Units) (hne : pieces.flatten ≠ [])
     (hal : (feed eng R md s pieces.flatten).Aligned eng) :
     ∀ t, t ∉ completeParses eng (pieces.foldl (feed eng R md) s) := by
   intro t ht
-  have h := (C13_chunking_irrelevant eng R md hL hR s hs pieces _ rfl hal).1 t
+  have h := (C13_chunking_irrelevant_partial eng R md hL hR s hs pieces _ rfl hal).1 t
   rw [C13_canContinue_sound_partial eng R md hC s hs.settled hcc _ hne] at h
   exact absurd (h.mp ht) (by simp)
 
@@ -234,6 +239,28 @@ theorem C13_example_run :
       rcases hwb with ⟨l, hl⟩ | ⟨r, hr⟩
       · simp [hl] at this
       · simp [hr] at this
+
+/-- the oracle of `r"[0-9]{2}"` is cut-stable: a regex with a multi-unit match inside which a cut can fall -/
+theorem C13_twoDigits_cutStable : CutStable twoDigits := twoDigits_cutStable
+
+/-- `<start> ::= r"[0-9]{2}" "a"` -/
+def reAlts : List (List TTerm) := [[.regex 0, .lit [97]]]
+
+/-- a run with a cut INSIDE a regex match ("1" | "2a") that meets every hypothesis of the `_partial` theorems:
+    the parse is the one of the whole input, and after "1" the regex waits as a resumable state with prefix "1" -/
+theorem C13_example_regex_run :
+    (linStart reAlts).Ready linEngine ∧
+    (feed linEngine twoDigits .text (linStart reAlts) [49, 50, 97]).Aligned linEngine ∧
+    (completeParses linEngine (feed linEngine twoDigits .text (linStart reAlts) [49, 50, 97])).map Tree.leaves
+      = [[Leaf.text [49, 50], Leaf.text [97]]] ∧
+    (completeParses linEngine
+      ([[49], [50, 97]].foldl (feed linEngine twoDigits .text) (linStart reAlts))).map Tree.leaves
+      = [[Leaf.text [49, 50], Leaf.text [97]]] ∧
+    (resumable (feed linEngine twoDigits .text (linStart reAlts) [49])).map (fun e => (e.idx, e.pre))
+      = [(1, [49])] ∧
+    canContinue linEngine (feed linEngine twoDigits .text (linStart reAlts) [49]) = true := by
+  refine ⟨linStart_ready _, aligned_of_check _ (by decide +kernel), by decide +kernel, by decide +kernel,
+    by decide +kernel, by decide +kernel⟩
 
 /-! ## 5. the full statement is false: a regex whose match can grow -/
 
